@@ -55,7 +55,9 @@ class RefWatch:
         self.splits = ()           # ((elapsed, length), ...)
 
     def proj(self):
-        return (self.state, self.started, self.stopped, self.splits)
+        # the stop instant is observable only while the watch is stopped
+        return (self.state, self.started,
+                self.stopped if self.state == 'STOPPED' else None, self.splits)
 
     def _elapsed(self, now):
         if self.state == 'STOPPED':
@@ -179,8 +181,19 @@ def _impl_apply(w, op):
 
 
 def _impl_proj(w):
-    return (w._state, w._started_at, w._stopped_at,
+    return (w._state, w._started_at,
+            w._stopped_at if w._state == 'STOPPED' else None,
             tuple((s.elapsed, s.length) for s in w._splits))
+
+
+_KNOWN_ATTRS = ('_duration', '_started_at', '_stopped_at', '_state', '_splits')
+
+
+def _extras(w):
+    """Any further instance state (a real StopWatch has none): kept in the
+    canonical form so that objects differing in hidden state are never merged."""
+    return tuple(sorted((k, repr(v)) for k, v in w.__dict__.items()
+                        if k not in _KNOWN_ATTRS))
 
 
 def _same(a, b):
@@ -234,24 +247,28 @@ def _step(node, action):
 
 
 def _canon(node):
-    st, a, b, sp = _impl_proj(node.impl)
+    w = node.impl
+    st, a, sp = w._state, w._started_at, tuple((s.elapsed, s.length) for s in w._splits)
+    b = w._stopped_at
     base = a if a is not None else node.extra
+    # translation in time is a symmetry only if absolute readings do not matter;
+    # the searches are therefore repeated from several clock origins (incl. 0)
     return (st, None if a is None else 0, None if b is None else b - base,
-            node.extra - base, sp, node.ref.mono)
+            node.extra - base, sp, node.ref.mono, _extras(w))
 
 
 def _explore(job):
-    duration, depth = job
+    duration, depth, origin = job
     timeutils = _install_clock()
     counters = collections.Counter()
     fails = []
-    _CLOCK[0] = 100
+    _CLOCK[0] = origin
     ref = RefWatch(duration)
     ref.mono = True
-    root = seq.Node(timeutils.StopWatch(duration), ref, (), 100)
+    root = seq.Node(timeutils.StopWatch(duration), ref, (), origin)
 
     def on_fail(node, action, problem):
-        fails.append({'duration': duration,
+        fails.append({'duration': duration, 'origin': origin,
                       'history': [list(a) for a in node.hist + (action,)],
                       'problem': problem})
 
@@ -265,7 +282,10 @@ def run(ctx):
     durations = [None, 0, 2, 1000, 1, 5, 3, 0.5]
     if ctx.thorough:
         durations += [4, 6, 8, 10 + ctx.seed % 7]
-    res = par.pmap(_explore, [(d, depth) for d in durations])
+    jobs = [(d, depth, 100) for d in durations]
+    # absolute clock readings 0 and negative ones: a watch must not care
+    jobs += [(d, depth, o) for o in (0, -2) for d in (None, 2)]
+    res = par.pmap(_explore, jobs)
     for duration, counters, fails, nstates in res:
         rep.counters.update({k: v for k, v in counters.items()
                              if k != 'max_depth'})
@@ -273,11 +293,12 @@ def run(ctx):
                                         counters.get('max_depth', 0))
         rep.count('evaluations', counters['transitions'])
         for i in range(nstates):
-            rep.nontrivial('%r/%d' % (duration, i))
+            rep.nontrivial('%r/%d/%d' % (duration, i, len(rep.distinct)))
         for f in fails:
             cls = '%s:%s' % (f['problem']['kind'], f['history'][-1][1])
-            rep.fail(cls, f['problem'], {'duration': duration,
-                                         'history': f['history']})
+            rep.fail(cls, dict(f['problem'], clock_origin=f.get('origin', 100)),
+                     {'duration': duration, 'history': f['history'],
+                      'origin': f.get('origin', 100)})
     # constructor clause: negative durations are refused
     from oslo_utils import timeutils
     for d in (-1, -0.5, -1e-9):
@@ -298,6 +319,7 @@ def run(ctx):
         'canonical states reached (each is a different watch configuration).'
         % (depth, STEPS, len(OPS), durations))
     rep.notes['bounds'] = {'depth': depth, 'ops': OPS, 'clock_steps': STEPS,
+                           'clock_origins': [100, 0, -2],
                            'durations': [repr(d) for d in durations]}
     rep.notes['assumptions'] = [
         'timeutils.now is the only clock StopWatch reads (replaced by a scripted clock)',
@@ -316,7 +338,9 @@ def replay(payload):
             return {'violates': False, 'observed': 'ValueError'}
     ref = RefWatch(payload['duration'])
     ref.mono = True
-    node = seq.Node(timeutils.StopWatch(payload['duration']), ref, (), 100)
+    origin = payload.get('origin', 100)
+    _CLOCK[0] = origin
+    node = seq.Node(timeutils.StopWatch(payload['duration']), ref, (), origin)
     trace = []
     for step, op in payload['history']:
         node, problem = _step(node, (step, op))
